@@ -1,7 +1,7 @@
 (* Arglist/Entry.v — entry points used by the correspondence check (harness/check_C13.py,
    harness/impl/c13.py mirror the encodings).  Lists are encoded with every element
    PREFIXED by code point 2; fields inside an operation are separated by code point 1. *)
-From MV Require Import Base.Strs Arglist.Model Arglist.Tables Arglist.Ops Arglist.Eager.
+From MV Require Import Base.Strs Arglist.Model Arglist.Tables Arglist.Ops Arglist.Eager Arglist.Backend Arglist.Seq.
 Open Scope N_scope.
 
 Definition parse_list (s : str) : list str := tl (split_on 2 s []).
@@ -84,6 +84,31 @@ Definition render_tables (T : tables) : str :=
   join [1] (map render_list [prepend_prefixes T; dedup2_prefixes T; dedup2_suffixes T; dedup2_args T;
                              dedup1_prefixes T; dedup1_suffixes T; dedup1_args T; always_dedup_args T]).
 
+(* a list of lists: the lists separated by code point 1 *)
+Definition parse_lists (s : str) : list (list str) := map parse_list (split_on 1 s []).
+Fixpoint pair_up (l : list (list str)) : list incdir :=
+  match l with
+  | s :: b :: r => mkincdir s b :: pair_up r
+  | [s] => [mkincdir s []]
+  | [] => []
+  end.
+(* an include object: dirs (sargs,bargs alternating, separated by 1), code point 4, extra increments *)
+Fixpoint split4 (s : str) (acc_rev : str) : str * str :=
+  match s with
+  | [] => (rev acc_rev, [])
+  | c :: t => if c =? 4 then (rev acc_rev, t) else split4 t (c :: acc_rev)
+  end.
+Definition parse_incobj (s : str) : incobj :=
+  let '(d, e) := split4 s [] in mkincobj (pair_up (parse_lists d)) (parse_lists e).
+Definition parse_tsrc (a : list str) : option tsrc :=
+  match a with
+  | [sb; fx; pj; gl; ex; pc; dp; sd; cu; ic; ta; si; bi; pi] =>
+      Some (mktsrc (parse_lists sb) (parse_lists fx) (parse_list pj) (parse_list gl) (parse_list ex) (parse_list pc)
+                   (parse_lists dp) (parse_list sd) (parse_list cu) (map parse_incobj (split_on 3 ic []))
+                   (parse_list ta) (parse_list si) (parse_list bi) (parse_list pi))
+  | _ => None
+  end.
+
 Definition run (fn : str) (args : list str) : str :=
   if str_eqb fn (s2l "seq") then          (* the lazy model *)
     match args with
@@ -115,6 +140,24 @@ Definition run (fn : str) (args : list str) : str :=
   else if str_eqb fn (s2l "tables") then
     match args with
     | [cls] => match tables_of cls with Some T => render_tables T | None => s2l "?" end
+    | _ => s2l "?"
+    end
+  else if str_eqb fn (s2l "bk") then      (* the backend's assembly through the lazy class *)
+    match args with
+    | cls :: rest =>
+        match tables_of cls, parse_tsrc rest with
+        | Some T, Some src => render_list (compile_args_lazy (can_dedup T) (should_prepend T) src)
+        | _, _ => s2l "?"
+        end
+    | _ => s2l "?"
+    end
+  else if str_eqb fn (s2l "ebk") then     (* ... and its eager meaning *)
+    match args with
+    | cls :: rest =>
+        match tables_of cls, parse_tsrc rest with
+        | Some T, Some src => render_list (compile_args (can_dedup T) (should_prepend T) src)
+        | _, _ => s2l "?"
+        end
     | _ => s2l "?"
     end
   else if str_eqb fn (s2l "realpath") then
